@@ -4,5 +4,7 @@
     (ascii -> char, string -> string).  None of our own. *)
 From Coq Require Import Extraction ExtrOcamlBasic ExtrOcamlNativeString.
 From Educe.Model Require Import Driver.
+From Educe.Spec Require Import Invalid.
 Extraction Language OCaml.
-Extraction "model.ml" expand expand_flat expand_alt_errs items_toks flat all_traits trait_name err_name.
+Extraction "model.ml" expand expand_flat expand_alt_errs items_toks flat all_traits trait_name err_name
+  invalid_classes invalid_classes_modulo_gap known_gap.
